@@ -17,7 +17,8 @@ type ProcSeqCase struct {
 }
 
 // RunProcSeq compares the processor with a trivial model, one operation at a time.
-// Pushes after Close are outside the domain (no caller does it).
+// Pushes after Close on a processor that was never started are outside the domain (a later Start would run them, and no
+// caller starts a writer it has closed); pushes after Close on a started one are inside it and must never run.
 func RunProcSeq(c ProcSeqCase) error {
 	var mu sync.Mutex
 	var executed []int
@@ -36,16 +37,27 @@ func RunProcSeq(c ProcSeqCase) error {
 		return nil
 	}
 	var pending, want []int
-	started, closed := false, false
+	started, closed, startedBeforeClose := false, false, false
 	next := 0
 	for i, op := range c.Ops {
 		switch op {
 		case 'p':
-			if closed {
-				continue
+			if closed && !startedBeforeClose {
+				continue // a Start after Close would find it; no caller starts a writer it has closed
 			}
 			id := next
 			next++
+			if closed {
+				// the stream goroutine may still push to a writer whose Close has returned (it is unlinked afterwards):
+				// accepted or not, the item must never run - the check after every operation sees to that
+				p.Push(func() error {
+					mu.Lock()
+					executed = append(executed, id)
+					mu.Unlock()
+					return nil
+				})
+				continue
+			}
 			ok := p.Push(func() error {
 				mu.Lock()
 				executed = append(executed, id)
@@ -87,6 +99,7 @@ func RunProcSeq(c ProcSeqCase) error {
 				continue
 			}
 			closed = true
+			startedBeforeClose = started
 			done := make(chan struct{})
 			go func() { p.Close(); close(done) }()
 			select {
